@@ -180,12 +180,15 @@ def cases(tier):
                 out.append(((a, b), 1, fmt, True, 0, conn, None))
                 out.append(((a, b), 2, fmt, True, 2, conn, None))
         for t in itertools.product(ARCHS, repeat=3):
-            out.append((t, 1, 'text', False, 0, conn, None))
-            out.append((t, 2, 'text', False, 2, conn, 4000))
+            out.append((t, 1, 'text', False, 0, conn, None))      # one worker: the only schedule
+            out.append((t, 2, 'text', False, 0, conn, None))      # two workers: the non-preemptive schedule
         short = ['TERR', 'MARK', 'RSA1024', 'RSA4096', 'CLEAN', 'SSH1', 'UNKNOWN']
         for t in itertools.product(short, repeat=3):
-            out.append((t, 3, 'text', False, 2, conn, 4000))
+            out.append((t, 2, 'text', False, 1, conn, None))
+            out.append((t, 3, 'text', False, 1, conn, None))
             out.append((t, 2, 'json', False, 1, conn, None))
+        for t in itertools.product(['TERR', 'RSA1024', 'CLEAN', 'GEX1024'], repeat=3):
+            out.append((t, 2, 'text', False, 2, conn, 3000))
         for a, b in itertools.product(['TERR', 'MARK', 'CLEAN', 'UNKNOWN', 'SSH1'], repeat=2):
             out.append(((a, b), 2, 'text', False, 3, fine, 20000))
     return out
